@@ -11,7 +11,7 @@ import numpy as np
 import scipy.sparse as sps
 from hypothesis import strategies as st
 
-from ..core import HarnessError, require, require_close
+from ..core import HarnessError, require
 from ..gen import fv
 from ..gen.fv_mech import build_vbc, mech_grid_spec, vbc_spec
 from ..gen.grids import build_grid, cells_estimate, grid_meta, grid_spec
@@ -27,12 +27,12 @@ RULE = (
     "top of an existing full discretisation with unchanged parameters; splits and inverter are also combined with "
     "partial/update. Oracle (differential against the one-piece default discretisation, 1e-10 x max|matrix|): split / "
     "inverter / update: every matrix in data[DISCRETIZATION_MATRICES][kw] (incl. vector source, Biot coupling dicts) "
-    "equal; partial: face-row matrices equal the reference on rows of parameter_dictionary['active_faces'] (x dim for "
+    "equal (Biot cell-row matrices after an update: only the rows of the targeted cells); partial: face-row matrices equal the reference on rows of parameter_dictionary['active_faces'] (x dim for "
     "vector rows) and are zero elsewhere, active_faces contains the targeted faces; Biot cell-row matrices equal the "
     "reference on the targeted cells and are zero outside active_cells. Non-trivial = >= 2 subproblems sharing a face, "
     "or a partial set whose active faces are neither none nor all, or the python inverter; distinct = hash of spec."
 )
-BUDGET = {"quick": {"cases": 240, "seconds": 45}, "thorough": {"cases": 6000, "seconds": 1200}}
+BUDGET = {"quick": {"cases": 130, "seconds": 45}, "thorough": {"cases": 4000, "seconds": 1200}}
 TECHNIQUE = "property-based testing (Hypothesis): differential (one-piece vs split / partial / other inverter) on generated grids and parameters"
 LEVEL_TEXT = ("Exploration: hundreds (quick) to thousands (thorough) of generated grid / parameter / boundary combinations, "
               "each discretised in one piece and again split into k overlapping subproblems (by count or by memory "
@@ -57,37 +57,87 @@ REQUIRED = {"mpfa": 0.2, "mpsa": 0.15, "biot": 0.15, "mode-split": 0.2, "mode-pa
 RTOL = 1e-10
 
 
+def _known_tilted_vector_source(spec):
+    v = spec["var"]
+    return (spec["disc"] == "mpfa" and _is_tilted(spec["grid"]) and not v.get("skip_vs")
+            and (v["mode"] in ("partial", "update") or v["k"] > 1))
+
+
+def _known_biot_update(spec):
+    return spec["disc"] == "biot" and spec["var"]["mode"] == "update"
+
+
+KNOWN = {
+    "C14-mpfa-embedded-2d-vector-source-subgrid-rotation": _known_tilted_vector_source,
+    "C14-biot-update-discretization-typeerror": _known_biot_update,
+}
+
+
 # ----------------------------------------------------------------------------- strategy
+def _cap_cells(grid, max_prod):
+    """Reduce the lattice of a (tetrahedral) grid spec so that prod(n) <= max_prod (cost control)."""
+    n = list(grid["n"])
+    while int(np.prod(n)) > max_prod:
+        i = int(np.argmax(n))
+        n[i] -= 1
+    grid["n"] = n
+    return grid
+
+
+def _is_tilted(grid):
+    """2-d grid spec whose plane is not parallel to the xy-plane."""
+    r = grid.get("rigid")
+    if grid["dim"] != 2 or not r:
+        return False
+    from ..gen.grids import rotation_matrix
+
+    return abs(abs(rotation_matrix(r["axis"], r["angle"])[2, 2]) - 1.0) > 1e-9
+
+
 @st.composite
 def _spec(draw, tier):
     disc = draw(st.sampled_from(["mpfa", "mpfa", "mpsa", "biot"]))
     big = tier == "thorough"
     if disc == "mpfa":
         grid = draw(grid_spec(dims=(2, 2, 3), poly=False, max_amp=0.15, max_n=5 if big else 4, max_n3=3 if big else 2))
+        if grid["kind"] == "tet":
+            grid = _cap_cells(grid, 8 if big else 4)
         par = {"K": draw(fv.spd_spec(het=True))}
         bc = draw(fv.bc_spec())
     else:
         grid = draw(mech_grid_spec(max_n=4 if big else 3, max_n3=2, dims=(2, 2, 3)))
+        if grid["kind"] == "tet":
+            grid = _cap_cells(grid, 4 if big else 2)
         par = {"lame": draw(fv.lame_het_spec())}
         if disc == "biot":
             par["alpha"] = {"a": draw(fv._f(0.2, 1.5)), "b": [draw(fv._f(0.2, 1.5)) for _ in range(3)],
                             "seed": draw(st.integers(0, 1000))}
         bc = draw(vbc_spec())
     ncell = cells_estimate(grid)
+    heavy = grid["dim"] == 3 and disc != "mpfa"  # 3-d vector problems: 30-50 ms per cell and subproblem
+    kmax = min(8, ncell) if not heavy else min(4 if big else 3, ncell)
     mode = draw(st.sampled_from(["split", "split", "split", "partial", "partial", "update", "inverter"]))
-    var = {"mode": mode, "k": 1, "by_mem": False, "inverter": "numba", "partial": None}
+    var = {"mode": mode, "k": 1, "by_mem": False, "inverter": "numba", "partial": None, "skip_vs": False}
+    py_ok = not heavy or ncell <= 12  # the python inverter loops over the local systems
     if mode == "inverter":
         var["inverter"] = "python"
-    else:
+        if not py_ok:
+            grid = _cap_cells(grid, 2 if grid["kind"] != "tet" else 1)
+            ncell = cells_estimate(grid)
+    elif py_ok:
         var["inverter"] = draw(st.sampled_from(["numba", "numba", "python"]))
     if mode == "split":
-        var["k"] = draw(st.integers(2, max(2, min(8, ncell)))) if ncell >= 2 else 1
+        var["k"] = draw(st.integers(2, max(2, kmax))) if ncell >= 2 else 1
         var["by_mem"] = draw(st.sampled_from([False, False, True]))
     if mode in ("partial", "update"):
         kind = draw(st.sampled_from(["cells", "faces", "nodes"]))
         var["partial"] = {"kind": kind, "sel": draw(st.lists(st.integers(0, 10**4), min_size=1, max_size=4))}
         if ncell >= 4:
             var["k"] = draw(st.sampled_from([1, 1, 2]))
+    if disc == "mpfa" and _is_tilted(grid) and mode != "inverter":
+        # vector-source matrices of tilted 2-d grids: see KNOWN; half of the cases skip them so that the other
+        # matrices of this class stay under test while the finding is open
+        var["skip_vs"] = draw(st.booleans())
     return {"disc": disc, "grid": grid, "par": par, "bc": bc, "var": var}
 
 
@@ -156,6 +206,7 @@ def _flatten(md):
     return out
 
 
+VS_KEYS = ("vector_source", "bound_pressure_vector_source")
 CELL_ROW = ("displacement_divergence", "boundary_displacement_divergence", "mpsa_consistency")
 
 
@@ -163,9 +214,11 @@ def _maxabs(A):
     return float(np.abs(A.data).max()) if A.nnz else 0.0
 
 
-def _compare_all(ref, var, tag):
+def _compare_all(ref, var, tag, skip=()):
     require(set(ref) == set(var), tag + "-keys", lambda: f"matrix keys differ: {sorted(ref)} vs {sorted(var)}")
     for name in sorted(ref):
+        if name in skip:
+            continue
         A, B = ref[name], var[name]
         require(A.shape == B.shape, tag + "-shape", f"{name}: {A.shape} vs {B.shape}")
         require(np.all(np.isfinite(B.data)), tag + "-finite", f"{name}: non-finite entries")
@@ -235,6 +288,9 @@ def check(spec):
 
     extra = {}
     nontrivial = False
+    skip = VS_KEYS if var.get("skip_vs") else ()
+    if skip:
+        labels.append("vector-source-skipped")
     if var["inverter"] == "python":
         extra[inv_key] = "python"
         labels.append("python-inverter")
@@ -256,7 +312,7 @@ def check(spec):
 
     if var["mode"] in ("split", "inverter"):
         v = _flatten(_run(discr, kw, g, base, extra)[pp.DISCRETIZATION_MATRICES][kw])
-        _compare_all(ref, v, "split" if var["mode"] == "split" else "inverter")
+        _compare_all(ref, v, "split" if var["mode"] == "split" else "inverter", skip)
         return {"labels": labels, "nontrivial": nontrivial}
 
     ps = var["partial"]
@@ -273,7 +329,18 @@ def check(spec):
         if 0 < af.size < g.num_faces:
             labels.append("partial-proper")
             nontrivial = True
-        _compare_all(ref, v, "update")
+        # face-row matrices: nothing may change (as in the repository's update tests); Biot cell-row matrices:
+        # only the rows of the targeted cells are claimed (the code documents its choice of updated cells as a guess)
+        cell_named = tuple(n for n in ref if n.split("/")[0] in CELL_ROW)
+        _compare_all(ref, v, "update", tuple(skip) + cell_named)
+        for name in cell_named:
+            A, B = ref[name], v[name]
+            require(A.shape == B.shape, "update-shape", f"{name}: {A.shape} vs {B.shape}")
+            if target_cells.size:
+                e = _maxabs((A[target_cells] - B[target_cells]).tocsr())
+                s = max(_maxabs(A), _maxabs(B))
+                require(e <= RTOL * s, "update-cell-rows",
+                        lambda: f"{name}: rows of targeted cells differ by {e:.3e} > {RTOL:g} * {s:.3e}")
         return {"labels": labels, "nontrivial": nontrivial}
 
     data = _run(discr, kw, g, base, extra)
@@ -293,6 +360,8 @@ def check(spec):
     crow_active = np.zeros(g.num_cells, dtype=bool)
     crow_active[ac] = True
     for name in sorted(ref):
+        if name in skip:
+            continue
         A, B = ref[name], v[name]
         require(A.shape == B.shape, "partial-shape", f"{name}: {A.shape} vs {B.shape}")
         s = max(_maxabs(A), _maxabs(B))
